@@ -275,6 +275,16 @@ class Normaliser:
                     for x in ast.walk(m):
                         if isinstance(x, ast.Attribute) and isinstance(x.ctx, (ast.Store, ast.Del)) and isinstance(x.value, ast.Name) and x.value.id == "self":
                             self.method_stores.setdefault(m.name, set()).add(x.attr)
+        # attributes that are only ever bound to freshly built lists
+        lst: dict[str, bool] = {}
+        for t in trees:
+            for x in ast.walk(t):
+                if isinstance(x, (ast.Assign, ast.AnnAssign)) and getattr(x, "value", None) is not None:
+                    for tg in (x.targets if isinstance(x, ast.Assign) else [x.target]):
+                        if isinstance(tg, ast.Attribute):
+                            good = isinstance(x.value, (ast.List, ast.ListComp)) or (isinstance(x.value, ast.Call) and isinstance(x.value.func, ast.Name) and x.value.func.id == "list")
+                            lst[tg.attr] = lst.get(tg.attr, True) and good
+        self.list_attrs = {k for k, v in lst.items() if v}
         self.plain_methods: dict[str, set[str]] = {}
         for t in trees:
             for c in ast.walk(t):
@@ -323,6 +333,7 @@ class Normaliser:
             out.extend(self.stmt(st))
         out = self.filtered_loops(out)
         out = self.slice_pops(out)
+        out = self.index_reads_then_del(out)
         out = self.sink_into_arms(out)
         # if C: ...; return V          if not C: raise E
         # raise E               ==>    ...; return V            (error exits are spelled as guards)
@@ -469,6 +480,33 @@ class Normaliser:
                 return conj(tests_e), binds_e
             if elem_subj is not None and s_ is subj and not (isinstance(p_, ast.MatchAs) and p_.pattern is None and p_.name is None):
                 return None   # a tuple subject matched by something else than sequences / the wildcard: left alone
+            if isinstance(p_, ast.MatchSequence) and sum(isinstance(x, ast.MatchStar) for x in p_.patterns) == 1:
+                # [*_, a, b]  /  [a, *_, b]: a sequence of at least that many items, the fixed positions counted from both ends
+                si = next(i for i, x in enumerate(p_.patterns) if isinstance(x, ast.MatchStar))
+                if p_.patterns[si].name is not None:
+                    return None
+                pre_p, post_p = p_.patterns[:si], p_.patterns[si + 1:]
+                lencall = ast.Call(func=ast.Name(id="len", ctx=ast.Load()), args=[copy.deepcopy(s_)], keywords=[])
+                tests_s: list[ast.expr] = []
+                if not (isinstance(s_, ast.Attribute) and s_.attr in self.list_attrs):
+                    tests_s.append(ast.Call(func=ast.Name(id="isinstance", ctx=ast.Load()),
+                                            args=[copy.deepcopy(s_), ast.Tuple(elts=[ast.Name(id="tuple", ctx=ast.Load()), ast.Name(id="list", ctx=ast.Load())], ctx=ast.Load())], keywords=[]))
+                tests_s.append(ast.Compare(left=lencall, ops=[ast.GtE()], comparators=[ast.Constant(value=len(pre_p) + len(post_p))]))
+                binds_s = []
+                for i, x in enumerate(pre_p):
+                    r_ = pat(x, ast.Subscript(value=copy.deepcopy(s_), slice=ast.Constant(value=i), ctx=ast.Load()))
+                    if r_ is None:
+                        return None
+                    tests_s.append(r_[0])
+                    binds_s += r_[1]
+                for j, x in enumerate(post_p):
+                    idx = ast.UnaryOp(op=ast.USub(), operand=ast.Constant(value=len(post_p) - j))
+                    r_ = pat(x, ast.Subscript(value=copy.deepcopy(s_), slice=idx, ctx=ast.Load()))
+                    if r_ is None:
+                        return None
+                    tests_s.append(r_[0])
+                    binds_s += r_[1]
+                return conj(tests_s), binds_s
             if isinstance(p_, ast.MatchSequence) and not any(isinstance(x, ast.MatchStar) for x in p_.patterns):
                 if (s_ is subj and tuple_len is not None and tuple_len == len(p_.patterns)) or \
                         (isinstance(s_, ast.Name) and elem_tuple_len.get(s_.id) == len(p_.patterns)):
@@ -579,6 +617,49 @@ class Normaliser:
             return [ast.fix_missing_locations(asg), ast.fix_missing_locations(ast.copy_location(inner, st))]
         outer = ast.If(test=head_test, body=[asg, inner], orelse=st.orelse)
         return [ast.fix_missing_locations(ast.copy_location(outer, st))]
+
+    def index_reads_then_del(self, stmts: list[ast.stmt]) -> list[ast.stmt]:
+        """t = L[-3]; k = L[-2]; v = L[-1]; del L[-2:]    ==>    v = L.pop(); k = L.pop(); t = L[-1]"""
+        i = 0
+        while i < len(stmts):
+            j = i
+            reads: dict[int, str] = {}
+            base = None
+            while j < len(stmts):
+                a = stmts[j]
+                if isinstance(a, ast.Assign) and len(a.targets) == 1 and isinstance(a.targets[0], ast.Name) and isinstance(a.value, ast.Subscript) \
+                        and isinstance(a.value.slice, ast.UnaryOp) and isinstance(a.value.slice.op, ast.USub) and isinstance(a.value.slice.operand, ast.Constant) \
+                        and isinstance(a.value.slice.operand.value, int) and _movable(a.value.value) and (base is None or ast.dump(a.value.value) == base):
+                    base = ast.dump(a.value.value)
+                    reads[a.value.slice.operand.value] = a.targets[0].id
+                    j += 1
+                else:
+                    break
+            if reads and j < len(stmts):
+                d = stmts[j]
+                if isinstance(d, ast.Delete) and len(d.targets) == 1 and isinstance(d.targets[0], ast.Subscript) and ast.dump(d.targets[0].value) == base \
+                        and isinstance(d.targets[0].slice, ast.Slice) and d.targets[0].slice.upper is None and d.targets[0].slice.step is None \
+                        and isinstance(d.targets[0].slice.lower, ast.UnaryOp) and isinstance(d.targets[0].slice.lower.op, ast.USub) \
+                        and isinstance(d.targets[0].slice.lower.operand, ast.Constant) and isinstance(d.targets[0].slice.lower.operand.value, int):
+                    m = d.targets[0].slice.lower.operand.value
+                    if m >= 1 and all(k in reads for k in range(1, m + 1)) and len(set(reads.values())) == len(reads):
+                        L = d.targets[0].value
+                        new: list[ast.stmt] = []
+                        for k in range(1, m + 1):
+                            call = ast.Call(func=ast.Attribute(value=copy.deepcopy(L), attr="pop", ctx=ast.Load()), args=[], keywords=[])
+                            new.append(ast.Assign(targets=[ast.Name(id=reads[k], ctx=ast.Store())], value=call))
+                        for k in sorted(reads):
+                            if k > m:
+                                sub = ast.Subscript(value=copy.deepcopy(L), slice=ast.UnaryOp(op=ast.USub(), operand=ast.Constant(value=k - m)), ctx=ast.Load())
+                                new.append(ast.Assign(targets=[ast.Name(id=reads[k], ctx=ast.Store())], value=sub))
+                        for x in new:
+                            ast.fix_missing_locations(ast.copy_location(x, d))
+                        stmts = stmts[:i] + new + stmts[j + 1:]
+                        self.hit("index-reads+del->pops")
+                        i += len(new)
+                        continue
+            i = max(j, i + 1)
+        return stmts
 
     def slice_pops(self, stmts: list[ast.stmt]) -> list[ast.stmt]:
         """a, b = L[-2:]; del L[-2:]   ==>   b = L.pop(); a = L.pop()     (the same values and the same final L whenever L holds at
